@@ -3,7 +3,7 @@ import ast
 
 from .repo import AnalysisError, dotted
 from .interp import Outcome, NORMAL, CFG_ATTRS, CFG_CLASSES
-from .terms import NONE, TRUE, FALSE, const, is_const
+from .terms import NONE, TRUE, FALSE, const, is_const, plain
 
 BUILTINS = {"len", "sorted", "set", "list", "dict", "bool", "sum", "any",
             "all", "int", "str", "float", "range", "enumerate", "isinstance",
@@ -279,6 +279,8 @@ class EvalMixin(object):
                     return const(a in b)
             except Exception:
                 pass
+        if op == "in" and r[0] == "reg":
+            l = plain(l)
         if op == "is" and is_const(r) and r[1] is None:
             return ("isnone", l)
         if op == "is" and is_const(l) and l[1] is None:
